@@ -111,6 +111,11 @@ def check_one(m, plugin, others, doc, hard_wrap, escape, fails):
     return True
 
 
+# plugins that take over the handler of a core construct, and the markers of that construct
+HOSTS = {"spoiler": [">", ">>", "> -", "- >", "> 1.", "> >"], "task_lists": ["-", "*", "+", "1.", "- -", "> -"],
+         "fenced_directive": ["-", ">", "1."], "def_list": ["-", ">"]}
+
+
 def oracle(ctx, extra):
     m = ctx.mistune
     r = ctx.rng("oracle")
@@ -133,12 +138,17 @@ def oracle(ctx, extra):
         k = r.random()
         if extra and i < len(extra) and isinstance(extra[i], str):
             doc = extra[i]
+        elif p in HOSTS and r.random() < 0.5:
+            # the plugin replaces the handler of a core construct: documents full of that construct (without the trigger)
+            doc = gen_docs.tab_doc(r, HOSTS[p])
         elif k < (0.6 if focus else 0.25):
             doc = gen_docs.interaction_doc(r)
         elif k < 0.75:
             doc = gen_docs.doc(r, plugins=gen_docs.ALL_PLUGINS, directives=r.random() < 0.3)
-        elif k < 0.9:
+        elif k < 0.85:
             doc = gen_docs.mutate(r, gen_docs.doc(r, plugins=gen_docs.ALL_PLUGINS))
+        elif k < 0.93:
+            doc = gen_docs.tab_doc(r)
         else:
             doc = gen_docs.noise(r)
         doc = _strip(doc, remove)
@@ -149,8 +159,8 @@ def oracle(ctx, extra):
             break
     return {"evaluations": n, "distinct_nontrivial": len(nontriv), "failures": fails,
             "rule": "for each of the 17 plugin/directive configurations in turn: a generated document (25% interrupt/lazy-continuation interaction fragments, 50% structured with "
-                    "all plugin syntaxes, 15% mutated, 10% noise) from which one specified trigger character per rule of "
-                    "the plugin has been deleted; HTML with plugins=others vs others+[plugin], others = 0-5 random other "
+                    "all plugin syntaxes, 10% mutated, 8% tabs and mixed indentation after container markers, 7% noise) from which one specified trigger character per rule of "
+                    "the plugin has been deleted (for a plugin that takes over the handler of a core construct - spoiler: block quotes, task_lists: list items, fenced_directive: fenced code - half of the documents are made of that construct with tabs and mixed indentation); HTML with plugins=others vs others+[plugin], others = 0-5 random other "
                     "plugins/directives, hard_wrap and escape random; distinct by (plugin, document)",
             "samples": [json.dumps(_strip(gen_docs.doc(ctx.rng('s'), plugins=gen_docs.ALL_PLUGINS), "|"))]}
 
